@@ -18,6 +18,7 @@ type intrinsic func(fr *frame, args []value) value
 
 type poolState struct {
 	items []value
+	clks  []vclock // happens-before: Put of an item -> Get of the same item
 }
 
 func (w *Worker) intrinsicFor(fn *ssa.Function) intrinsic {
@@ -626,9 +627,21 @@ func init() {
 			w := fr.w
 			p := a[0].(*value)
 			ps := w.poolFor(p)
+			if w.gor != nil && w.gor.sched.active {
+				// with several goroutines alive the pool is a scheduling point
+				w.gor.sched.yield("pool.Get")
+				w.gor.sched.touch(p)
+			}
 			if n := len(ps.items); n > 0 {
 				x := ps.items[n-1]
 				ps.items = ps.items[:n-1]
+				if len(ps.clks) == n {
+					if w.gor != nil {
+						g := w.gor.sched.cur
+						g.vc = join(g.vc, ps.clks[n-1])
+					}
+					ps.clks = ps.clks[:n-1]
+				}
 				return x
 			}
 			// field New
@@ -654,7 +667,19 @@ func init() {
 		"(*sync.Pool).Put": func(fr *frame, a []value) value {
 			w := fr.w
 			ps := w.poolFor(a[0].(*value))
+			var clk vclock
+			if w.gor != nil && w.gor.sched.active {
+				w.gor.sched.yield("pool.Put")
+				w.gor.sched.touch(a[0].(*value))
+				g := w.gor.sched.cur
+				clk = g.vc.copy()
+				g.vc[g.id]++
+			}
+			for len(ps.clks) < len(ps.items) {
+				ps.clks = append(ps.clks, nil)
+			}
 			ps.items = append(ps.items, a[1])
+			ps.clks = append(ps.clks, clk)
 			return nil
 		},
 		"(*sync.Mutex).Lock":     nop,
